@@ -235,7 +235,9 @@ func TestC12Terminates(t *testing.T) {
 			case "rmpipeA+rmnode":
 				f = func() { _ = b.RemovePipeline("A", "pa"); _ = b.RemoveNode(ctx, "x"); _ = b.RemoveNode(ctx, "sA") }
 			case "regnode":
-				f = func() { _ = b.RegisterNode("extra", &nodes.N{W: wd.w, Name: "extra", ID: "extra", T: eventlogger.NodeTypeFilter}) }
+				f = func() {
+					_ = b.RegisterNode("extra", &nodes.N{W: wd.w, Name: "extra", ID: "extra", T: eventlogger.NodeTypeFilter})
+				}
 			case "regpipeA":
 				f = func() {
 					_ = b.RegisterPipeline(eventlogger.Pipeline{PipelineID: "pa", EventType: "A", NodeIDs: []eventlogger.NodeID{"x", "mA", "sA"}})
